@@ -91,12 +91,12 @@ class Run:
         return d
 
     def tlc_mc(self, module, cfg=None, workers=None, timeout=900, xmx="6g", label=None,
-               expect_error=False, extra=None, env=None):
+               expect_error=False, extra=None, env=None, xss="64m"):
         """Model check <module>.tla with <cfg>; returns dict with distinct/generated."""
         d = self._specdir()
         cfg = cfg or module + ".cfg"
         workers = workers or NCPU
-        cmd = ["java", "-XX:+UseParallelGC", "-Xmx" + xmx, "-Xss64m", "-cp",
+        cmd = ["java", "-XX:+UseParallelGC", "-Xmx" + xmx, "-Xss" + xss, "-cp",
                "/opt/veriftools/tla/tla2tools.jar:/opt/veriftools/tla/CommunityModules-deps.jar",
                "tlc2.TLC", "-workers", str(workers), "-metadir", os.path.join(d, "meta"),
                "-config", cfg] + (extra or []) + [module + ".tla"]
